@@ -19,6 +19,7 @@ impl PeersStore {
 use std::net::SocketAddrV4 as A4;
 
 //@ ob: C20.O2
+//@ unwindset_raw: memcmp.0:22
 //@ tier: thorough
 //@ cap: 1800
 //@ standins: lru
